@@ -161,7 +161,7 @@ func c20Restore(n *c20Node, archive []byte, guard time.Duration) (err error, blo
 func TestVerifC20(t *testing.T) {
 	rep := verifkit.NewReport("C20", "c20-export-restore")
 	defer rep.Finish(t)
-	rep.Rule = "seeded account histories on a real service (contact requests in several states, 0-2 multi-member groups created and used, metadata and 0-8 messages per group, account-group messages) exported through the export path; the tar is parsed independently " +
+	rep.Rule = "seeded account histories on a real service (contact requests in several states, 0-2 multi-member groups created and used, metadata and 0-8 messages per group, account-group messages; in every other account each open log also gets a second branch - two heads - through the replication path) exported through the export path; the tar is parsed independently " +
 		"(key files, entries/<cid> re-hashed, heads files); restored into a fresh node and compared log by log (entry CIDs, heads, derived state) before anything is written there, then a service is started on it and messages are listed; " +
 		"mutated archives (byte flips in entry / heads / key files, dropped and duplicated key files, duplicated and renamed entry files, reordered files, truncation, restore onto a used store). distinct = (account history) and (archive mutation)"
 	rep.Assume("mutations outside the statement's rejection list (heads flips, dropped entry files, truncated tar) are exercised for no-panic; a restore that waits for entries that cannot come is released by cancelling the node and recorded")
@@ -232,6 +232,45 @@ func TestVerifC20(t *testing.T) {
 		}
 		// let the handlers that react to the history (secrets sent to own member, ...) settle: export takes what is there
 		time.Sleep(150 * time.Millisecond)
+		// logs with several heads (what concurrent writers leave behind once their branches were merged): in every other
+		// account, the message log and the metadata log of each open group get a second branch through the replication path
+		if ai%2 == 0 {
+			svcA.lock.RLock()
+			var open []*GroupContext
+			for _, gc := range svcA.openedGroups {
+				open = append(open, gc)
+			}
+			svcA.lock.RUnlock()
+			for _, gc := range open {
+				p := fmt.Sprintf("fork-msg-%x", gc.Group().PublicKey[:3])
+				if mb, err := protoMarshal(&protocoltypes.EncryptedMessage{Plaintext: []byte(p), ProtocolMetadata: &protocoltypes.ProtocolMetadata{}}); err == nil {
+					if sealed, err := svcA.secretStore.SealEnvelope(ctx, gc.Group(), mb); err == nil {
+						forked, err := c20Fork(ctx, gc.MessageStore(), sealed)
+						if err != nil {
+							rep.Inconclusivef("%s: fork of a message log: %v", tag, err)
+						} else if forked {
+							payloadsByGroup[string(gc.Group().PublicKey)] = append(payloadsByGroup[string(gc.Group().PublicKey)], p)
+							rep.Count("logs_with_two_heads", 1)
+							hist = append(hist, "fork-message-log")
+						}
+					}
+				}
+				ms := gc.MetadataStore()
+				evt := &protocoltypes.GroupMetadataPayloadSent{Message: []byte("fork-meta"), DevicePk: ms.devicePublicKeyRaw}
+				if sig, err := signProtoWithDevice(evt, ms.memberDevice); err == nil {
+					if env, err := sealGroupEnvelope(gc.Group(), protocoltypes.EventType_EventTypeGroupMetadataPayloadSent, evt, sig); err == nil {
+						forked, err := c20Fork(ctx, ms, env)
+						if err != nil {
+							rep.Inconclusivef("%s: fork of a metadata log: %v", tag, err)
+						} else if forked {
+							rep.Count("logs_with_two_heads", 1)
+							hist = append(hist, "fork-metadata-log")
+						}
+					}
+				}
+			}
+			time.Sleep(100 * time.Millisecond)
+		}
 		// ---- export -------------------------------------------------------------------------------------
 		// the export is compared with the logs as they were while it was taken: the logs are read before and after,
 		// and the export is repeated if a background task of the service appended something in between
